@@ -6,6 +6,7 @@ package main
 import (
 	"fmt"
 	"go/ast"
+	"go/token"
 	"go/types"
 	"strings"
 
@@ -725,7 +726,12 @@ func (u *Unit) callByContract(call *ast.CallExpr, f *types.Func, con *Contract, 
 		srt := u.reg.sortOf(t)
 		var v Val
 		if pure {
-			v = u.pureResult(f, i, srt, t, recv, args, st)
+			if dv, ok := u.pureDefinedResult(con, i, n, rv, st); ok && dv.S == srt {
+				v = dv
+				v.GT = t
+			} else {
+				v = u.pureResult(f, i, srt, t, recv, args, st)
+			}
 		} else {
 			v = Val{T: u.reg.fresh("r_"+f.Name(), srt), S: srt, GT: t}
 		}
@@ -819,10 +825,63 @@ func isGhostVocabulary(f *types.Func) bool {
 		return false
 	}
 	switch f.Name() {
-	case "implies", "iff", "forall", "exists", "old", "has", "keys", "dynIs", "unboxed", "seqEq", "setEq", "typeOK", "ite", "allocated", "isFresh", "sortedStrings", "permOf":
+	case "implies", "iff", "forall", "exists", "forall2", "forall3", "exists2", "old", "has", "keys", "dynIs", "unboxed", "seqEq", "setEq", "same", "typeOK", "unchangedExcept", "ite", "allocated", "isFresh", "sortedStrings", "permOf":
 		pos := f.Pos()
 		_ = pos
 		return true
 	}
 	return false
+}
+
+// pureDefinedResult: a pure function whose contract has a clause `result == E` (or
+// `resultN == E`) is that expression (used like a spec function).
+func (u *Unit) pureDefinedResult(con *Contract, i, n int, rv *roleVals, st *State) (Val, bool) {
+	for _, c := range con.Ensures {
+		sf := u.prog.SpecFns[c.SpecFunc]
+		if sf == nil || sf.Decl == nil {
+			continue
+		}
+		ret, ok := sf.Decl.Body.List[0].(*ast.ReturnStmt)
+		if !ok {
+			continue
+		}
+		be, ok := ast.Unparen(ret.Results[0]).(*ast.BinaryExpr)
+		if !ok || be.Op != token.EQL {
+			continue
+		}
+		id, ok := be.X.(*ast.Ident)
+		if !ok {
+			continue
+		}
+		want := fmt.Sprintf("result%d", i)
+		if !(id.Name == want || (i == 0 && id.Name == "result")) {
+			continue
+		}
+		// evaluate E with the roles bound (results unbound)
+		specPkg := u.prog.Pkgs[sf.Pkg]
+		bind := map[*types.Var]Val{}
+		var pvars []*types.Var
+		for _, fl := range sf.Decl.Type.Params.List {
+			for _, nm := range fl.Names {
+				v, _ := specPkg.TypesInfo.Defs[nm].(*types.Var)
+				pvars = append(pvars, v)
+			}
+		}
+		for k, role := range sf.Roles {
+			kind := role[:strings.Index(role, ":")]
+			switch {
+			case kind == "recv" && rv.recv != nil:
+				bind[pvars[k]] = *rv.recv
+			case strings.HasPrefix(kind, "param"):
+				var idx int
+				fmt.Sscanf(kind, "param%d", &idx)
+				if idx < len(rv.params) {
+					bind[pvars[k]] = rv.params[idx]
+				}
+			}
+		}
+		v := u.evalSpecExpr(be.Y, specPkg.TypesInfo, bind, bind, st, st)
+		return v, true
+	}
+	return Val{}, false
 }
